@@ -120,7 +120,6 @@ impl Pos {
 //@ within pub trait PositionExt<const DECIMALS: u8>: Position<DECIMALS>
 //@ fn validate
 //@ sig fn validate( &self, prices: &Prices<Self::Num>, should_validate_min_position_size: bool, should_validate_min_collateral_usd: bool, ) -> crate::Result<()>
-//@ sub E::Liquidatable\(reason\) => E::Liquidatable
     pub fn validate(&self, prices: &Prices, should_validate_min_position_size: bool, should_validate_min_collateral_usd: bool) -> (r: Result<(), E>)
         ensures
             // a position that passes is non-empty, large enough (when asked) and NOT liquidatable at these prices
